@@ -36,6 +36,9 @@ ASSUMPTIONS = [
     "chunk invariance is claimed and checked only where the property claims it: fixed / variable / split / random / BIQF managers, the baselines, and the strategies that only forward utilities to such a manager",
 ]
 TRUSTED = [
+    "translator harness/translate/pystream.py (Python subset -> Lean, typing table of the attributes, generator = cursor into the captured "
+    "draw streams, lazily initialised attributes = initial object): validated on every run by executing the translated model bit-exactly "
+    "against the real classes; the equality translated model = hand-written model is proved in Lean for all inputs (Lemmas/StreamGen.lean)",
     "known genuine defect (no small fix): StreamDensityBasedAL / CognitiveDualQueryStrategy judge every instance of a chunk against the manager state from before the chunk (Lean: density_chunk_dependence_counterexample); reported under the chunk-dependence keys",
     "the density / cognition window logic is an oracle of the Lean model (a pass bit per instance); on the implementation it is exercised as is",
     "classifier, distance function and np.quantile are oracles",
